@@ -102,6 +102,7 @@ func TestC06Query(t *testing.T) {
 			}
 			pool := gen.PoolFromEvents(world.Events, world.Authors)
 			pool.MaxLimit = 4
+			pool.LongLists = true
 			for q := 0; q < 2; q++ {
 				fs := pool.DrawFilters(t, fmt.Sprintf("b%d.q%d.", b, q), 1, 3)
 				r := c06Query(t, db, seed, m, fs, desc, "after a batch")
@@ -145,6 +146,7 @@ func TestC06Query(t *testing.T) {
 		}
 		pool := gen.PoolFromEvents(world.Events, world.Authors)
 		pool.MaxLimit = 4
+		pool.LongLists = true
 		for q := 0; q < 3; q++ {
 			fs := pool.DrawFilters(t, fmt.Sprintf("final.q%d.", q), 1, 3)
 			c06Query(t, db, seed, m, fs, desc, "final, original batches")
